@@ -95,6 +95,11 @@ func (f *SQLFormatter) formatStatement(stmt ast.Statement) error {
 	case *ast.MergeStatement:
 		return f.formatMergeStatement(s)
 	default:
+		// Statement types without a dedicated layout are written as the AST serialises them
+		if s, ok := stmt.(interface{ SQL() string }); ok {
+			f.builder.WriteString(s.SQL())
+			return nil
+		}
 		return fmt.Errorf("unsupported statement type: %T", stmt)
 	}
 }
